@@ -513,9 +513,95 @@ def tile_util_rule(ctx):
     return r
 
 
+# ---------------------------------------------------------------------------------------
+# UT-ARGS: no helper mutates a Python container argument (lists / dicts of shapes, sizes ...)
+# ---------------------------------------------------------------------------------------
+
+_PY_MUTATORS = {"append", "extend", "insert", "pop", "remove", "reverse", "clear", "update", "setdefault", "popitem", "discard"}
+
+
+def _may_alias(e, aliases):
+    """may the value of `e` be the very object one of the names in `aliases` holds?"""
+    if isinstance(e, ast.Name):
+        return e.id in aliases
+    if isinstance(e, ast.IfExp):
+        return _may_alias(e.body, aliases) or _may_alias(e.orelse, aliases)
+    if isinstance(e, ast.BoolOp):
+        return any(_may_alias(v, aliases) for v in e.values)
+    if isinstance(e, ast.NamedExpr):
+        return _may_alias(e.value, aliases)
+    return False  # calls, displays, arithmetic, slices build new objects
+
+
+def py_args_rule(ctx):
+    """The tensor side of "none of them modifies its arguments" is UT-PURE (ownership analysis); this
+    is the Python side: a list / dict argument (a shape, a list of sizes) must not be extended,
+    appended to, sorted, cleared or augmented in place -- directly or through a local that may be the
+    same object (`new = shape if isinstance(shape, list) else list(shape); new += ...`).  `x += y` on
+    a may-alias counts when the parameter can be a list: the function tests isinstance(p, list), its
+    default is a list, or some call site in the repository passes a list display."""
+    p = ctx.p
+    res = RuleResult("UT-ARGS", "no helper mutates a Python container it was given (append / extend / += / sort / clear / item deletion on an argument or a local that may be the same object)")
+    funcs = [fi for fi in p.all_functions() if fi.module.name in (TU, TC) and fi.cls is None]
+    # call sites: which parameters receive list / dict displays somewhere in the repository?
+    listy = {}
+    for caller in p.all_functions():
+        for n in ast.walk(caller.node):
+            if not isinstance(n, ast.Call):
+                continue
+            nm = n.func.attr if isinstance(n.func, ast.Attribute) else (n.func.id if isinstance(n.func, ast.Name) else None)
+            for fi in funcs:
+                if nm != fi.name:
+                    continue
+                params = [a for a, _ in fi.params()]
+                for i, a in enumerate(n.args):
+                    if i < len(params) and isinstance(a, (ast.List, ast.ListComp, ast.Dict, ast.DictComp, ast.Set)):
+                        listy.setdefault((fi.qualname, params[i]), []).append("%s:%d" % (caller.module.relpath, n.lineno))
+                for k in n.keywords:
+                    if k.arg in params and isinstance(k.value, (ast.List, ast.ListComp, ast.Dict, ast.DictComp, ast.Set)):
+                        listy.setdefault((fi.qualname, k.arg), []).append("%s:%d" % (caller.module.relpath, n.lineno))
+    n_checked = 0
+    for fi in funcs:
+        params = [a for a, _ in fi.params()]
+        defaults = dict(fi.params())
+        for prm in params:
+            aliases = {prm}
+            changed = True
+            while changed:
+                changed = False
+                for n in ast.walk(fi.node):
+                    if isinstance(n, ast.Assign) and _may_alias(n.value, aliases):
+                        for t in n.targets:
+                            if isinstance(t, ast.Name) and t.id not in aliases:
+                                aliases.add(t.id)
+                                changed = True
+            can_be_list = bool(listy.get((fi.qualname, prm))) or isinstance(defaults.get(prm), (ast.List, ast.Dict)) or any(
+                isinstance(n, ast.Call) and isinstance(n.func, ast.Name) and n.func.id == "isinstance" and len(n.args) == 2 and isinstance(n.args[0], ast.Name) and n.args[0].id == prm and any(isinstance(x, ast.Name) and x.id in ("list", "dict", "set") for x in ast.walk(n.args[1]))
+                for n in ast.walk(fi.node)
+            )
+            for n in ast.walk(fi.node):
+                what = None
+                if isinstance(n, ast.Expr) and isinstance(n.value, ast.Call) and isinstance(n.value.func, ast.Attribute) and isinstance(n.value.func.value, ast.Name) and n.value.func.value.id in aliases and (n.value.func.attr in _PY_MUTATORS or n.value.func.attr == "sort"):
+                    what = "`%s`" % norm_text(n.value)[:50]
+                elif isinstance(n, ast.Delete) and any(isinstance(t, ast.Subscript) and isinstance(t.value, ast.Name) and t.value.id in aliases for t in n.targets):
+                    what = "`%s`" % norm_text(n)[:50]
+                elif isinstance(n, ast.AugAssign) and isinstance(n.target, ast.Name) and n.target.id in aliases and can_be_list and isinstance(n.op, (ast.Add, ast.Mult, ast.BitOr)):
+                    what = "`%s` (an in-place extension when `%s` is a list)" % (norm_text(n)[:50], prm)
+                if what is None:
+                    continue
+                sites = listy.get((fi.qualname, prm), [])
+                via = "" if (isinstance(n, ast.AugAssign) and n.target.id == prm) or (isinstance(n, ast.Expr) and n.value.func.value.id == prm) else " through a local that may be the same object"
+                res.fail(Finding("UT-ARGS", fi.module, fi.qualname, n, "%s modifies its argument `%s`%s: %s -- the caller's object changes (a second call with the same list sees the extended one)%s" % (fi.name, prm, via, what, ("; lists are passed at " + ", ".join(sites[:3])) if sites else "")))
+            n_checked += 1
+    if n_checked < getattr(ctx, "ut_args_floor", 15):
+        raise AnalysisIncomplete("UT-ARGS: %d (function, parameter) pairs (< 15)" % n_checked)
+    res.ok("%d (helper, parameter) pairs: no append / extend / += / sort / clear / del on an argument or a may-alias of it" % n_checked)
+    return res
+
+
 register(
     "C20",
-    [c20_pure, reshape_rule, tile_util_rule, search_rule, mask_rule, pred_rule, form_rule, c20_dtype],
+    [c20_pure, py_args_rule, reshape_rule, tile_util_rule, search_rule, mask_rule, pred_rule, form_rule, c20_dtype],
     "For every function exported by nflows/utils/__init__.py. UT-PURE: the ownership analysis of C13 with each helper as its own "
     "entry point: no write may reach storage aliasing an argument. UT-RESHAPE / UT-TILE: symbolic layout of tile ([L] -> "
     "[L (x) n]) and repeat_rows ([R,...] -> [R (x) n,...]); merge_leading_dims / split_leading_dim are single reshapes with "
